@@ -110,11 +110,40 @@ def sibling_config(spec, r):
     if s["kind"] == "triaffine":
         s["lower"] = not s.get("lower", True)
         changed = True
+    if s["kind"] == "tri_spline":
+        s["tanh_max_val"] = r.choice([v for v in (1.0, 2.0, 3.0, 8.0) if v != s.get("tanh_max_val", 3.0)])
+        changed = True
+    if s["kind"] == "bnaf" and s.get("activation") in (None, "leaky1", "leaky8"):
+        s["activation"] = r.choice([a for a in (None, "leaky1", "leaky8") if a != s.get("activation")])
+        changed = True
     return s if changed else None
 
 
-def _direct_spec(r, kinds):
+def _wn_spec(r, kind, prop):
+    """Weight-normalised families built eagerly (zoo kinds ``bnaf`` / ``tri_spline``)."""
+    dim = r.choice([1, 2, 2, 3, 3])
+    mode = r.choice(["single", "single", "chain", "scan", "scan"])
+    spec = {"kind": kind, "dim": dim, "cond_dim": r.choice([None, None, 2]), "mode": mode,
+            "layers": 1 if mode == "single" else r.choice([1, 2, 2]), "invert": r.random() < 0.6}
+    if kind == "bnaf":
+        spec["depth"] = r.choice([0, 1, 1, 2])
+        spec["block_dim"] = r.choice([1, 2, 3])
+        # a bounded activation (the paper's tanh) has no inverse on all of R: only where nothing calls the
+        # numerical inverter (training and Jacobian checks use the forward direction of an inverted layer)
+        acts = [None, None, "leaky1", "leaky8", "callable"] + (["tanh"] if prop in ("C09", "C11", "C18") else [])
+        spec["activation"] = r.choice(acts)
+        if spec["cond_dim"] or spec["activation"] == "tanh" or prop == "C18":
+            spec["invert"] = True  # log_prob of the non-inverted network needs the bisection inverter (not reverse-differentiable)
+    else:
+        spec["knots"] = r.choice([2, 3, 4])
+        spec["tanh_max_val"] = r.choice([1.0, 3.0, 3.0, 8.0])
+    return spec
+
+
+def _direct_spec(r, kinds, prop=None):
     kind = r.choice(list(kinds))
+    if kind in ("bnaf", "tri_spline"):
+        return _wn_spec(r, kind, prop)
     dim = r.choice([1, 2, 2, 3])
     spec = {"kind": kind, "dim": dim}
     if kind == "triaffine":
@@ -222,6 +251,11 @@ def _loop_for(spec, r, prefer_vi=0.4):
     cond = spec.get("cond_dim")
     tanh_planar = (spec["kind"] in ("planar",) or spec.get("flow") == "planar") and spec.get("negative_slope") is None
     can_vi = not cond
+    if spec["kind"] == "bnaf":
+        # the cheap direction only: the other one runs the bisection inverter (a while_loop: no reverse mode)
+        if spec.get("invert", True):
+            return "data", ("contrastive" if cond and r.random() < 0.25 else "mle")
+        return "vi", "elbo"
     if tanh_planar and spec.get("invert", True):
         can_vi = False  # sampling needs the (unimplemented) inverse of tanh-planar
     can_data = not (tanh_planar and not spec.get("invert", True))
@@ -287,15 +321,43 @@ def _planar_like(spec):
     return spec["kind"] == "planar" or spec.get("flow") == "planar"
 
 
-def _box(spec):
+def _box(spec, prop=None):
+    # bnaf: the Jacobian diagonal is a PRODUCT over layers of softplus-positive weights, row-norm ratios and
+    # activation slopes; beyond |raw| ~ 8 that product leaves float32 range (C11's constraints are per matrix: full box)
+    if spec["kind"] == "bnaf" and prop != "C11":
+        return 5.0
     return 5.0 if _planar_like(spec) else 50.0
 
 
 # ------------------------------------------------------------------ per-property worlds
-def _bucket(prop, tier, seed, idx):
+WN_EVERY = 5  # every 5th bucket holds a weight-normalised family (bnaf / tri_spline); the others are the
+              # buckets of the earlier generator, in their old order (old bucket j sits at j + j // 4)
+
+
+def _route(prop, idx):
+    """(is_wn_bucket, bucket index within its stream, run index within its stream)."""
     K = K_BUCKET[prop]
-    r = rng_for(seed, prop, tier, "bucket", idx // K)
-    if prop == "C12":
+    b, k = divmod(idx, K)
+    if b % WN_EVERY == WN_EVERY - 1:
+        wb = b // WN_EVERY
+        return True, wb, wb * K + k
+    ob = b - b // WN_EVERY
+    return False, ob, ob * K + k
+
+
+def _bucket(prop, tier, seed, idx):
+    wn, bidx, _ = _route(prop, idx)
+    r = rng_for(seed, prop, tier, "wnbucket" if wn else "bucket", bidx)
+    if wn:
+        kinds = {"C09": ["bnaf"], "C11": ["bnaf", "bnaf", "tri_spline", "tri_spline"], "C12": ["bnaf", "bnaf", "tri_spline"],
+                 "C18": ["bnaf", "bnaf", "tri_spline"]}[prop]
+        spec = _wn_spec(r, r.choice(kinds), prop)
+        if prop == "C09":
+            spec["dim"] = r.choice([1, 2, 3, 3, 4])
+        freeze = []
+        if prop == "C12":
+            freeze = [{"node": r.randrange(10**6), "mode": r.choice(["NT", "fn"])} for _ in range(r.choice([0, 1, 1, 2, 3]))]
+    elif prop == "C12":
         u = r.random()
         if u < 0.45:
             spec = _flow_spec(r, transformers=("affine", "spline", "affine_frozen_loc", "affine_frozen_scale_node", "spline_frozen_derivs"))
@@ -378,7 +440,8 @@ def _bucket(prop, tier, seed, idx):
 
 def world_for(prop, tier, seed, idx):
     b = _bucket(prop, tier, seed, idx)
-    r = rng_for(seed, prop, tier, "run", idx)
+    wn, _, ridx = _route(prop, idx)
+    r = rng_for(seed, prop, tier, "wnrun" if wn else "run", ridx)
     w = copy.deepcopy(b)
     w["idx"] = idx
     w["model"] = _fill_values(b["model"], r)
@@ -387,7 +450,7 @@ def world_for(prop, tier, seed, idx):
         w["key_style"] = "legacy"  # flowjax samplers reshape raw uint32 key data: typed keys unsupported there
     if "data" in w:
         w["data"]["seed"] = r.randrange(2**31)
-    box = _box(b["model"])
+    box = _box(b["model"], prop)
     hint = w.get("steps", 6) if b["loop"] == "vi" else 3 * max(1, w.get("max_epochs", 2))
     if prop == "C12" and idx % K_BUCKET[prop] == K_BUCKET[prop] - 1 and b["loss"] != "contrastive":
         # the loops' own defaults (adam, MaximumLikelihoodLoss): nothing is observed per step,
@@ -451,6 +514,10 @@ def _relevant_symbols(spec):
         rel += SYM_SPLINE
     if any("Tanh" in i for i in items) or spec["kind"] == "scan_vspline":
         rel += SYM_TANH
+    if spec["kind"] == "tri_spline":
+        rel += SYM_TANH + ["lo", "hi", "big", "huge", "-big", "-huge"]
+    if spec["kind"] == "bnaf":
+        rel += ["big", "huge", "-big", "-huge", "big", "huge", "0", "max_val", "-max_val"]
     if any(("SoftPlus" in i) or ("Exp" in i) for i in items):
         rel += ["big", "huge", "-big", "-huge", "0", "tiny", "big", "huge"]
     return rel
